@@ -89,7 +89,8 @@ def parallel_compile(jobs):
 
 def prune_build_root(keep):
     try:
-        ents = [os.path.join(BUILD_ROOT, e) for e in os.listdir(BUILD_ROOT) if os.path.isdir(os.path.join(BUILD_ROOT, e))]
+        ents = [os.path.join(BUILD_ROOT, e) for e in os.listdir(BUILD_ROOT)
+                if os.path.isdir(os.path.join(BUILD_ROOT, e)) and len(e) == 24 and all(ch in '0123456789abcdef' for ch in e)]
     except OSError:
         return
     ents.sort(key=lambda p: os.path.getmtime(p), reverse=True)
